@@ -119,12 +119,9 @@ class Report:
             for f in os.listdir(rdir):
                 if f.endswith('.json'):
                     os.remove(os.path.join(rdir, f))
-            seen = set()
-            for i, o in enumerate(viol):
-                key = (o.unit.split('[')[0], o.name)
-                if key in seen and i >= 40:
-                    continue
-                seen.add(key)
+            # reproduced counterexamples first; at most 12 lines (the evidence file and replays/ hold the rest)
+            viol.sort(key=lambda o: 0 if (o.replay or {}).get('reproduced') else 1)
+            for i, o in enumerate(viol[:12]):
                 path = os.path.join(rdir, f'v{i:03d}.json')
                 rp = o.replay or {}
                 reproduced = rp.get('reproduced')
@@ -135,6 +132,8 @@ class Report:
                               f, indent=1, default=str)
                 tail = '' if reproduced else ' no-failing-input-found'
                 lines.append(f'VIOLATION property={self.prop} replay={path} obligation={o.ident}{tail}')
+            if len(viol) > 12:
+                lines.append(f'... {len(viol) - 12} further failed obligation(s) of {self.prop} not listed (see evidence/{self.prop}.json)')
             code = 1
         if faults:
             for o in faults:
@@ -190,6 +189,7 @@ class Report:
                 'backend': backend,
                 'slowest': [dict(o.brief()) for o in slow],
                 'bounded_standins': self.bounded,
+                'failed': [o.ident for o in viol][:200],
                 'undecided': [o.ident for o in unknown][:50] + [f'{e[0]}: {e[1]}: {str(e[2])[:200]}' for e in und][:50],
                 'samples': samples,
                 'explanation': ' '.join(self.notes) or 'see DESIGN.md',
